@@ -2,33 +2,35 @@ package main
 
 import (
 	"fmt"
-
-	"cosmossdk.io/math"
-	sdk "github.com/cosmos/cosmos-sdk/types"
-	ammtypes "github.com/elys-network/elys/x/amm/types"
+	"strings"
 
 	"verifharness/chain"
+	"verifharness/run"
+	_ "verifharness/scen"
 )
 
-func main() {
-	for _, frac := range []int64{50, 80, 95, 99} {
-		for _, ratio := range []int64{1, 3} {
-			w := chain.NewWorld(chain.Config{NUsers: 6})
-			w.Prologue(chain.PrologueCfg{Scale: 1e12})
-			u := w.Users
-			w.Step(4000)
-			ctx := w.ReadCtx()
-			cm := w.App.CommitmentKeeper.GetCommitments(ctx, u[0].Addr)
-			have := cm.GetCommittedAmountForDenom("amm/pool/1")
-			sw := &ammtypes.MsgSwapExactAmountIn{Sender: u[3].S(), Routes: []ammtypes.SwapAmountInRoute{{PoolId: 1, TokenOutDenom: "uatom"}}, TokenIn: chain.Coin("uusdc", 1e11*ratio), TokenOutMinAmount: math.NewInt(1)}
-			ex := &ammtypes.MsgExitPool{Sender: u[0].S(), PoolId: 1, ShareAmountIn: have.MulRaw(frac).QuoRaw(100), MinAmountsOut: sdk.NewCoins()}
-			b := w.Step(5, w.Tx(u[3], sw), w.Tx(u[0], ex))
-			fmt.Printf("frac=%d ratio=%d err=%q", frac, ratio, b.Err)
-			if b.Res != nil {
-				fmt.Printf(" swap=%d exit=%d %s", b.Txs[1].Result.Code, b.Txs[2].Result.Code, b.Txs[2].Result.Log)
+type probe struct{}
+
+func (probe) AfterCommit(w *chain.World, blk *chain.BlockRecord) {
+	if blk.Height < 112 || blk.Height > 115 {
+		return
+	}
+	for _, t := range blk.Txs {
+		if strings.Contains(t.MsgType(), "leveragelp.MsgClosePositions") && t.Result != nil {
+			for _, e := range t.Result.Events {
+				if strings.Contains(e.Type, "close") || strings.Contains(e.Type, "Close") {
+					for _, a := range e.Attributes {
+						fmt.Printf("h=%d %s %s=%.600s\n", blk.Height, e.Type, a.Key, a.Value)
+					}
+				}
 			}
-			fmt.Println()
-			w.Close()
 		}
 	}
+}
+
+func main() {
+	j := run.Job{Prop: "C08", Scenario: "vault", Index: 2, Seed: 1, Tier: "quick"}
+	run.AttachHook = func(w *chain.World) { w.AddProbe(probe{}) }
+	r := run.RunJob(j)
+	fmt.Println(r.Extra, r.NViolations)
 }
